@@ -39,7 +39,15 @@ TEXT_MODES = {
     "relative-paths+tabs2": ["--no-gitconfig", "--relative-paths", "--tabs", "2"],
     "raw": ["--no-gitconfig", "--raw"],
     "rs": gitskin.RS_ARGS,
+    "maxlen60": ["--no-gitconfig", "--max-line-length", "60"],
+    "hyperlinks+commit-format": ["--no-gitconfig", "--hyperlinks", "--hyperlinks-commit-link-format", "https://example.org/c/{commit}"],
 }
+COMMIT_RAW_MODES = {"defaults", "navigate+hyperlinks", "hyperlinks+commit-format", "maxlen60", "relative-paths+tabs2"}   # commit-style raw
+
+
+def rainbow(r2, n):
+    """n visible characters, each in its own colour: long in bytes, short on screen."""
+    return "".join(f"\x1b[38;5;{r2.randrange(16, 232)}m{r2.choice('abcdefgh xyz')}\x1b[0m" for _ in range(n))
 
 
 def run(tier):
@@ -111,8 +119,17 @@ def run(tier):
         r2 = random.Random(core.seed() * 7919 + i)
         nl = r2.randint(1, 8)
         lines = [gen_payload(r2, 6) for _ in range(nl)]
-        variant = i % 4
+        variant = i % 6
         raw = [l.encode() for l in lines]
+        if variant == 4:       # per-character colours: many bytes, few columns (one line far beyond the default limit in bytes)
+            raw = [("w" + rainbow(r2, r2.randint(5, 45))).encode() for _ in range(nl)]
+            if i % 12 == 4:
+                raw.append(("w" + rainbow(r2, 1400)).encode())
+        elif variant == 5:     # a commit section whose free text mentions other commits
+            hx = lambda n: "".join(r2.choice("0123456789abcdef") for _ in range(n - 1)) + "a"
+            raw = [("commit " + hx(40)).encode(), ("Merge: " + hx(7) + " " + hx(7)).encode(), b"Author: A <a@b>", b"",
+                   ("    This reverts commit " + hx(40) + ".").encode(), ("    (cherry picked from commit " + hx(12) + ")").encode(),
+                   b"", ("    see " + hx(9) + " and deadbeef").encode()]
         if variant == 1:
             raw = [b + b"\r" for b in raw]                      # CRLF input
         elif variant == 2:
@@ -123,7 +140,11 @@ def run(tier):
     intern = gitskin.Interner()
     jobs = [(i, t, m) for i, t in enumerate(texts) for m in (TEXT_MODES if i % 3 == 0 else rnd.sample(list(TEXT_MODES), 3))
             # (with relative paths requested, " path | 3 ++" lines are diffstat lines, a construct)
-            if not (m == "relative-paths+tabs2" and any(b"|" in b for b in t))]
+            if not (m == "relative-paths+tabs2" and any(b"|" in b for b in t))
+            # (a line wider than a lowered --max-line-length is truncated: not under test here)
+            and not (m == "maxlen60" and any(len(lexer.strip_ansi(b).decode("utf-8", "replace")) > 50 for b in t))
+            # (a commit line is a construct: it stays as it is only where commit-style is raw)
+            and not (any(b.startswith(b"commit ") for b in t) and m not in COMMIT_RAW_MODES)]
 
     def one(job):
         i, raw, m = job
